@@ -21,7 +21,7 @@ let run_walk_a (id : string) (v : view) (steps : step list) (obs : Buffer.t) : u
         match s.op with
         | "inc" -> it_inc it | "dec" -> it_dec it
         | "add" | "plus" -> it_add it (z s.arg) | "sub" | "minus" -> it_sub it (z s.arg)
-        | "set" | "cpy" -> regs.(s.arg)
+        | "set" | "cpy" | "fset" -> regs.(s.arg)
         | "end" -> e | "begin" -> b
         | _ -> failwith "bad walk op" in
       regs.(s.r) <- it';
@@ -57,7 +57,7 @@ let run_walk_e (id : string) (v : view) (steps : step list) (obs : Buffer.t) : u
         match s.op with
         | "inc" -> e_inc it | "dec" -> e_dec it
         | "add" | "plus" -> e_add it (z s.arg) | "sub" | "minus" -> e_sub it (z s.arg)
-        | "set" -> e_assign it regs.(s.arg) | "cpy" -> regs.(s.arg)
+        | "set" | "fset" -> e_assign it regs.(s.arg) | "cpy" -> regs.(s.arg)
         | "end" -> e_assign it e | "begin" -> e_assign it b
         | _ -> failwith "bad walk op" in
       regs.(s.r) <- it';
@@ -79,7 +79,7 @@ let run_walk_e (id : string) (v : view) (steps : step list) (obs : Buffer.t) : u
         (String.concat "" (List.init (min size 64) (fun p -> Printf.sprintf " %d" (i (er_at v (z p)))))))
 
 let step_text (s : step) : string =
-  let a = match s.op with "add" | "sub" | "set" | "cpy" | "plus" | "minus" -> Printf.sprintf " %d" s.arg | _ -> "" in
+  let a = match s.op with "add" | "sub" | "set" | "fset" | "cpy" | "plus" | "minus" -> Printf.sprintf " %d" s.arg | _ -> "" in
   Printf.sprintf "w %d %s%s %s" s.r s.op a (match s.k with Some k -> string_of_int k | None -> "-")
 
 (* ---- generator: positions are tracked here; every move stays inside [0, size] ---- *)
@@ -92,14 +92,14 @@ let gen_walk (size : int) (nsteps : int) : step list * string list =
         let p = pos.(r) in
         let rec choose tries =
           let op =
-            weighted [ (5, "inc"); (4, "dec"); (5, "add"); (5, "sub"); (2, "plus"); (2, "minus"); (3, "set"); (1, "cpy"); (2, "end"); (1, "begin") ] in
+            weighted [ (5, "inc"); (4, "dec"); (5, "add"); (5, "sub"); (2, "plus"); (2, "minus"); (3, "set"); (2, "fset"); (1, "cpy"); (2, "end"); (1, "begin") ] in
           let ok, arg, p' =
             match op with
             | "inc" -> (p + 1 <= size, 0, p + 1)
             | "dec" -> (p - 1 >= 0, 0, p - 1)
             | "add" | "plus" -> let t = rnd_range 0 size in (true, t - p, t)       (* may be negative or zero *)
             | "sub" | "minus" -> let t = rnd_range 0 size in (true, p - t, t)
-            | "set" | "cpy" -> let s = rnd 3 in (true, s, pos.(s))
+            | "set" | "cpy" | "fset" -> let s = rnd 3 in (true, s, pos.(s))
             | "end" -> (true, 0, size)
             | _ -> (true, 0, 0) in
           if ok || tries = 0 then (if ok then (op, arg, p') else ("begin", 0, 0)) else choose (tries - 1) in
@@ -113,7 +113,7 @@ let gen_walk (size : int) (nsteps : int) : step list * string list =
 let parse_step (toks : string list) : step =
   match toks with
   | r :: op :: rest ->
-      let has_arg = List.mem op [ "add"; "sub"; "set"; "cpy"; "plus"; "minus" ] in
+      let has_arg = List.mem op [ "add"; "sub"; "set"; "fset"; "cpy"; "plus"; "minus" ] in
       let arg, rest = if has_arg then (int_of_string (List.hd rest), List.tl rest) else (0, rest) in
       let k = match rest with [ "-" ] | [] -> None | x :: _ -> Some (int_of_string x) in
       { r = int_of_string r; op; arg; k }
